@@ -418,8 +418,10 @@ def oracle_history(case, obs, builtin):
     taken = dict(builtin)
     unsure = set()
 
-    def viol(what, i, finding=None):
-        out.append(Violation(what, {"kind": "history", "case": case, "at": i, "observed": obs}, finding))
+    def viol(what, i, finding=None, tag=""):
+        v = Violation(what, {"kind": "history", "case": case, "at": i, "observed": obs, "tag": tag}, finding)
+        v.tag = tag
+        out.append(v)
 
     for i, (o, ob) in enumerate(zip(case["ops"], obs)):
         k = o["op"]
@@ -431,18 +433,18 @@ def oracle_history(case, obs, builtin):
             if ob == "ok":
                 if key in taken and key not in unsure:
                     viol("registration of %r as %s %s accepted although the name was taken (by %s)"
-                         % (o["name"], o["ver"], o["kind"], "a built-in" if key in builtin else "an earlier registration"), i)
+                         % (o["name"], o["ver"], o["kind"], "a built-in" if key in builtin else "an earlier registration"), i, tag="dup-accepted")
                 if o["kind"] == "extension":
                     if not ext_name_must(o["name"], o["ver"]):
                         viol("extension name %r (%s) breaks the naming rule and was accepted" % (o["name"], o["ver"]), i,
-                             classify_type_name(o["name"], o["ver"]))
+                             classify_type_name(o["name"], o["ver"]), tag="bad-type-accepted")
                 elif not type_must(o["name"]):
                     viol("type name %r (%s %s) breaks the naming rule and was accepted" % (o["name"], o["ver"], o["kind"]), i,
-                         classify_type_name(o["name"], o["ver"]))
+                         classify_type_name(o["name"], o["ver"]), tag="bad-type-accepted")
                 for p in o["props"]:
                     if not prop_must(p[0]):
                         viol("property name %r (%s %s %r) breaks the naming rule and was accepted"
-                             % (p[0], o["ver"], o["kind"], o["name"]), i, classify_prop_name(p[0], o["ver"]))
+                             % (p[0], o["ver"], o["kind"], o["name"]), i, classify_prop_name(p[0], o["ver"]), tag="bad-prop-accepted")
                 taken.setdefault(key, "stix2.custom." + o["cls"])
                 if side:
                     taken.setdefault(side, ANY)
@@ -450,7 +452,7 @@ def oracle_history(case, obs, builtin):
                 if side and side not in taken:
                     unsure.add(side)                                    # may or may not have been registered before the failure
                 if key not in taken and key not in unsure and reg_expect_valid(o):
-                    viol("valid registration of %r as %s %s refused: %s" % (o["name"], o["ver"], o["kind"], ob), i)
+                    viol("valid registration of %r as %s %s refused: %s" % (o["name"], o["ver"], o["kind"], ob), i, tag="valid-refused")
             continue
         # lookups
         name = o["name"]
@@ -491,12 +493,13 @@ def oracle_history(case, obs, builtin):
             continue
         if want is None:
             if ob.startswith("cls:"):
-                viol("%s dispatches to %s although nothing is registered under that name for that version" % (what, ob[4:]), i)
+                viol("%s dispatches to %s although nothing is registered under that name for that version" % (what, ob[4:]), i,
+                     tag="lookup-unregistered")
         elif want is ANY:
             if not ob.startswith("cls:"):
-                viol("%s gives %s although an extension was registered under that name" % (what, ob), i)
+                viol("%s gives %s although an extension was registered under that name" % (what, ob), i, tag="lookup-missing")
         elif ob != "cls:" + want:
-            viol("%s gives %s, registered class is %s" % (what, ob, want), i)
+            viol("%s gives %s, registered class is %s" % (what, ob, want), i, tag="lookup-wrong")
     return out
 
 
@@ -539,6 +542,290 @@ def oracle_guarantee(case, res):
                 if nv.get("id_change") == "ok":
                     viol("new_version of registered type %s allowed changing the id" % tag, r)
     return out
+
+
+# ------------------------------------------------------------------ custom types inherit: the class table a decorator builds
+
+HEADER_B = """From Coq Require Import NArith ZArith List String.
+From V Require Import Base.UString Base.Json Model.SchemaTypes Model.RegistryBuilder.
+From V Require Model.Registry.
+Import ListNotations. Open Scope string_scope.
+"""
+
+USER_KINDS = [
+    {"k": "string"}, {"k": "string"}, {"k": "int", "min": None, "max": None}, {"k": "int", "min": 0, "max": 65535},
+    {"k": "int", "min": -5, "max": None}, {"k": "float", "min": None, "max": None}, {"k": "float", "min": 0, "max": 1},
+    {"k": "bool"}, {"k": "bool", "default": False}, {"k": "bool", "default": True},
+    {"k": "time", "prec": "any", "constr": "exact"}, {"k": "time", "prec": "millisecond", "constr": "min"},
+    {"k": "time", "prec": "second", "constr": "exact"}, {"k": "dict"}, {"k": "binary"}, {"k": "hex"},
+    {"k": "enum", "allowed": ["a", "b-c", "d"]}, {"k": "openvocab", "allowed": ["x", "y"]},
+    {"k": "list", "of": {"k": "string"}}, {"k": "list", "of": {"k": "int", "min": 1, "max": None}},
+    {"k": "list", "of": {"k": "enum", "allowed": ["p", "q"]}},
+]
+USER_NAMES = ["prop1", "name2", "count_it", "tags", "flag", "when_seen", "x_zeta", "x_alpha", "x_mid", "x_", "x_alpha2",
+              "xylo", "description", "value"]
+
+
+def dump_kind(spec, ver):
+    """The generated property spec in the format translators/dump_tables.py gives for the live Property object."""
+    k = spec["k"]
+    if k in ("string", "bool", "binary", "hex"):
+        return {"k": k}
+    if k in ("int", "float"):
+        return {"k": k, "min": spec.get("min"), "max": spec.get("max")}
+    if k == "time":
+        return dict(spec)
+    if k == "dict":
+        return {"k": "dict", "ver": ver}
+    if k in ("enum", "openvocab"):
+        return {"k": k, "allowed": list(spec["allowed"])}
+    if k == "ref":
+        return {"k": "ref", "white": True, "generics": [], "specifics": sorted(spec["specifics"]), "ver": ver}
+    if k == "objref":
+        return {"k": "objref", "valid_types": spec.get("valid_types")}
+    if k == "list":
+        return {"k": "list", "of": dump_kind(spec["of"], ver)}
+    raise ValueError(spec)
+
+
+def dump_default(spec):
+    if spec["k"] == "bool" and "default" in spec:
+        return {"d": "const", "v": spec["default"]}
+    return {"d": "none"}
+
+
+def esc(s):
+    return "".join(ch if (32 <= ord(ch) <= 126 and ch not in '\\"') else "\\%06X" % ord(ch) for ch in s)
+
+
+def render_ulist(l):
+    return "[" + ",".join(esc(x) for x in l) + "]"
+
+
+def render_optz(z):
+    return "-" if z is None else str(z)
+
+
+def render_kind(k):
+    t = k["k"]
+    if t in ("string", "pattern", "bool", "binary", "hex", "selector", "any"):
+        return t
+    if t == "objref":
+        return "objref" + render_ulist(k.get("valid_types") or [])
+    if t == "fixed":
+        return "fixed(%s)%s" % (esc(k["v"]), render_ulist(k.get("allowed", [])))
+    if t == "id":
+        return "id(%s,%s)" % (esc(k["prefix"]), k["ver"])
+    if t in ("int", "float"):
+        return "%s(%s,%s)" % (t, render_optz(k["min"]), render_optz(k["max"]))
+    if t == "time":
+        return "time(%s,%s)" % (k["prec"], k["constr"])
+    if t in ("dict", "observable", "extensions", "stixobject", "marking"):
+        return "%s(%s)" % (t, k["ver"])
+    if t == "hashes":
+        return "hashes%s(%s)" % (render_ulist(k["names"]), k["ver"])
+    if t == "ref":
+        return "ref(%s,%s,%s,%s)" % ("true" if k["white"] else "false", render_ulist(k["generics"]), render_ulist(k["specifics"]), k["ver"])
+    if t in ("embedded", "listof"):
+        return "%s(%s)" % (t, esc(k["cls"]))
+    if t in ("enum", "openvocab"):
+        return t + render_ulist(k["allowed"])
+    if t == "list":
+        return "list<%s>" % render_kind(k["of"])
+    raise ValueError(k)
+
+
+def render_default(d):
+    if d["d"] != "const":
+        return d["d"]
+    v = d["v"]
+    if v is True or v is False:
+        return "const:" + ("true" if v else "false")
+    if v is None:
+        return "const:null"
+    if isinstance(v, str):
+        return "const:'%s'" % esc(v)
+    if isinstance(v, int):
+        return "const:%d" % v
+    return "const:?"
+
+
+def render_cls(d):
+    slots = ["%s:%s:%s:%s" % (esc(s["name"]), render_kind(s["kind"]), "true" if s["required"] else "false",
+                              render_default(s["default"])) for s in d["slots"]]
+    return "%s %s %s %s contrib%s %s" % (esc(d["cid"]), d["ver"], esc(d["type"]) if d["type"] is not None else "-",
+                                         d["family"], render_ulist(d["id_contrib"]), " ; ".join(slots))
+
+
+def gen_inherit(run, idx):
+    rng = run.rng
+    regs = []
+    for j in range(rng.randrange(2, 5)):
+        kind = rng.choice(list(KIND_CAT))
+        ver = rng.choice(["2.0", "2.1"])
+        name = "x-i%d-%s" % (j, gen_valid_type(rng)) + ("-ext" if kind == "extension" else "")
+        props = []
+        for pn in rng.sample(USER_NAMES, rng.randrange(1, 7)):
+            spec = rng.choice(USER_KINDS)
+            props.append([pn, spec, rng.random() < 0.3 and "default" not in spec])   # required and default exclude each other
+        r = rng.random()
+        obs20 = kind == "observable" and ver == "2.0"
+        if r < 0.35:
+            props.insert(rng.randrange(len(props) + 1),
+                         ["actor_ref", {"k": "objref", "valid_types": None} if obs20 else {"k": "ref", "specifics": ["identity", "malware"]}, False])
+        if r > 0.75:
+            props.insert(rng.randrange(len(props) + 1),
+                         ["x_more_refs", {"k": "list", "of": {"k": "objref", "valid_types": ["file"]} if obs20 else {"k": "ref", "specifics": ["tool"]}}, False])
+        if rng.random() < 0.15:
+            props.append([props[0][0], rng.choice(USER_KINDS), False])      # a repeated name: last value, first position
+        if rng.random() < 0.12 and kind in ("object", "observable"):
+            props.append([rng.choice(["labels", "extensions", "revoked"]), {"k": "string"}, False])   # overrides a standard one
+        op = {"kind": kind, "ver": ver, "name": name, "props": props, "cls": "I%d" % j}
+        if kind == "extension":
+            xt = rng.choice([None, "property-extension", "new-sdo", "new-sco", "new-sro", "toplevel-property-extension"])
+            if xt:
+                op["exttype"] = xt
+        regs.append(op)
+    return {"k": "dump", "id": idx, "regs": regs}
+
+
+CK_COQ = {"object": "CObject", "observable": "CObservable", "marking": "CMarking", "extension": "CExtension"}
+XTR_COQ = {k: "Registry." + v for k, v in XT_COQ.items()}
+
+
+def inherit_term(o):
+    import tr_tables
+    slots = ["mk_slot %s %s %s %s" % (common.coq_ustr(p[0]), tr_tables.kind(dump_kind(p[1], o["ver"])),
+                                     common.coq_bool(bool(p[2])), tr_tables.dflt(dump_default(p[1]))) for p in o["props"]]
+    xt = "None" if not o.get("exttype") else "(Some %s)" % XTR_COQ[o["exttype"]]
+    return "show_cls (custom_cls %s %s %s %s %s %s)" % (CK_COQ[o["kind"]], coq_ver(o["ver"]), common.coq_ustr(o["name"]), xt,
+                                                       common.coq_list(slots), common.coq_ustr(o["cls"]))
+
+
+def check_inherit(run, n_cases, model_ok):
+    """The class table each decorator builds (live class, dumped with the schema translator's functions) against the
+    builder model Model/RegistryBuilder.v."""
+    cases = [gen_inherit(run, i) for i in range(n_cases)]
+    res = common.run_impl("c19_dump", cases, procs=min(common.NCPU, max(1, len(cases) // 4)))
+    pairs = []
+    for c, r in zip(cases, res):
+        run.count(c, nontrivial=True)
+        if not isinstance(r, list):
+            run.broken.append(Broken("correspondence", "class dump case %d did not run" % c["id"], {"result": r}))
+            continue
+        for o, x in zip(c["regs"], r):
+            if x.get("registered") != "ok":
+                run.violations.append(Violation("valid registration refused (%s %s %r): %s" % (o["ver"], o["kind"], o["name"], x.get("registered")),
+                                                {"kind": "dump", "case": {"regs": [o]}, "observed": x}))
+            elif "abort" in x:
+                run.broken.append(Broken("correspondence", "class of a custom type could not be dumped", {"reg": o, "abort": x["abort"]}))
+            else:
+                d = x["cls"]
+                if d["has_own_constraints"]:
+                    run.broken.append(Broken("correspondence", "custom class has constraints of its own", {"reg": o}))
+                pairs.append((o, render_cls(d), d))
+    run.coverage["inherit_classes_dumped"] = len(pairs)
+    if pairs:
+        run.sample({"custom class (live, dumped)": pairs[0][1][:600]})
+    if model_ok and pairs:
+        try:
+            mlines = common.coq_eval_lines("c19b", HEADER_B, [inherit_term(o) for o, _, _ in pairs], shard=40)
+            dis = [(o, i, m) for (o, i, _), m in zip(pairs, mlines) if i != m]
+            run.coverage["inherit_disagreements"] = len(dis)
+            if dis:
+                run.broken.append(Broken("correspondence", "class table built by a decorator: builder model vs live class",
+                                         {"first": [{"reg": o, "impl": i, "model": m} for o, i, m in dis[:3]]}))
+        except RuntimeError as e:
+            run.broken.append(Broken("correspondence", "model evaluation failed (builder)", {"error": str(e)[-1500:]}))
+
+
+# ------------------------------------------------------------------ shrinking a failing history (delta debugging)
+
+def still_fails(case, obs, builtin, tag, finding):
+    return isinstance(obs, list) and any(getattr(v, "tag", None) == tag and v.finding == finding
+                                         for v in oracle_history(case, obs, builtin))
+
+
+def shrink_history(case, builtin, tag, finding, budget=80):
+    """ddmin over the operation list (every candidate runs in a fresh interpreter, candidates of one round in
+    parallel), then the property lists of the remaining registrations are cut down.  The result still shows a
+    violation of the same kind (tag) and class (finding)."""
+    ops = list(case["ops"])
+    spent = 0
+    n = 2
+    while len(ops) >= 2 and spent < budget:
+        size = max(1, len(ops) // n)
+        cands = []
+        for i in range(0, len(ops), size):
+            rest = ops[:i] + ops[i + size:]
+            if rest:
+                cands.append(rest)
+        res = run_histories([{"k": "history", "ops": c} for c in cands])
+        spent += len(cands)
+        hit = None
+        for c, r in zip(cands, res):
+            if still_fails({"k": "history", "ops": c}, r, builtin, tag, finding):
+                hit = c
+                break
+        if hit is not None:
+            ops = hit
+            n = max(n - 1, 2)
+        elif size == 1:
+            break
+        else:
+            n = min(len(ops), n * 2)
+    # simplify the registrations that are left
+    for idx, o in enumerate(ops):
+        if o["op"] != "reg" or spent >= budget:
+            continue
+        cands = []
+        for j in range(len(o["props"])):
+            o2 = dict(o, props=o["props"][:j] + o["props"][j + 1:])
+            cands.append(ops[:idx] + [o2] + ops[idx + 1:])
+        for key in ("extname", "exttype"):
+            if key in o:
+                o2 = {k: v for k, v in o.items() if k != key}
+                cands.append(ops[:idx] + [o2] + ops[idx + 1:])
+        progress = True
+        while progress and cands and spent < budget:
+            progress = False
+            res = run_histories([{"k": "history", "ops": c} for c in cands])
+            spent += len(cands)
+            for c, r in zip(cands, res):
+                if still_fails({"k": "history", "ops": c}, r, builtin, tag, finding):
+                    ops = c
+                    o = ops[idx]
+                    cands = [ops[:idx] + [dict(o, props=o["props"][:j] + o["props"][j + 1:])] + ops[idx + 1:]
+                             for j in range(len(o["props"]))]
+                    progress = True
+                    break
+    final = {"k": "history", "ops": ops}
+    obs = run_histories([final])[0]
+    if still_fails(final, obs, builtin, tag, finding):
+        return final, obs, spent
+    return None, None, spent
+
+
+def shrink_violations(run, builtin, limit=3):
+    """Replace the replay of the first few unclassified history violations by a minimal history."""
+    done, seen = 0, set()
+    for v in run.violations:
+        if done >= limit:
+            break
+        r = v.replay
+        if v.finding is not None or r.get("kind") != "history" or not getattr(v, "tag", None) or v.tag in seen:
+            continue
+        seen.add(v.tag)
+        if len(r["case"]["ops"]) <= 3:
+            continue
+        small, obs, spent = shrink_history(r["case"], builtin, v.tag, None)
+        done += 1
+        if small is None:
+            continue
+        vs = [x for x in oracle_history(small, obs, builtin) if getattr(x, "tag", None) == v.tag and x.finding is None]
+        v.what = vs[0].what
+        v.replay = dict(vs[0].replay, shrunk_from=len(r["case"]["ops"]), shrink_runs=spent)
+        run.coverage.setdefault("shrunk", []).append({"tag": v.tag, "from": len(r["case"]["ops"]), "to": len(small["ops"]), "runs": spent})
 
 
 # ------------------------------------------------------------------ witnesses (variant selection on the implementation)
@@ -788,6 +1075,10 @@ def check(run):
         run.violations += oracle_guarantee(c, r)
     run.coverage["guarantee_types_exercised"] = gtypes
 
+    # ---- the class tables the decorators build (custom types inherit)
+    builder_ok = model_ok and os.path.exists(os.path.join(common.COQ, "Model", "RegistryBuilder.vo"))
+    check_inherit(run, 200 if thorough else 16, builder_ok)
+
     # ---- something broke: search harder with the oracle alone
     if run.broken and not [v for v in run.violations if v.finding is None]:
         extra = [gen_history(run, 100000 + i) for i in range(n_hist * 3)]
@@ -798,6 +1089,15 @@ def check(run):
         extra_g = [gen_guarantee(run, 100000 + i) for i in range(n_guar * 2)]
         for c, r in zip(extra_g, run_histories(extra_g)):
             run.violations += oracle_guarantee(c, r)
+
+    # ---- minimal replays
+    if any(v.finding is None for v in run.violations):
+        # put violations with short histories first, then shrink the first of each kind
+        run.violations.sort(key=lambda v: (v.finding is not None, len(v.replay.get("case", {}).get("ops", [])) if isinstance(v.replay, dict) else 0))
+        try:
+            shrink_violations(run, builtin)
+        except Exception as e:  # noqa: BLE001 -- shrinking is a convenience, never a verdict
+            run.notes.append("shrinking failed: %s: %s" % (type(e).__name__, e))
 
     run.coverage["trusted_base"] += [
         "translators/tr_regex.py (regex texts, shape of _validate_type, DEFAULT_VERSION, live built-in registries; fail-closed)",
